@@ -54,4 +54,147 @@ theorem C17_sys (s : Server) (i : Nat) (q : Nat) (d r : Bool) (id : Nat) (topic 
       split <;> simp [setObj]
     · simp only [ackRes_fst, and_self]
 
+/-! ## A refused publish is not routed
+
+The three gates at the head of `processPublish` — topic validity (`IsValidFilter(topic, true)`: wildcard, `$SYS`),
+receive quota, write permission — each end the handler before `publishToSubscribers` and `retainMsg`: whatever the
+handler writes goes to the publisher (an ack with a failure code, or a DISCONNECT), no PUBLISH is written to anybody
+and the retained store and the index are unchanged.  (At the level of the whole op a DISCONNECT ends the connection
+with an error, and `attachClient` then publishes the client's WILL — `sendLWT`, without a write check: recorded
+finding — so the statement is about the handler, like `C17_write` / `C17_sys` above.) -/
+
+/-- no PUBLISH among the outputs -/
+def NoPublishOut (o : List Out) : Prop := ∀ n ver m mes, Out.wrote n (.publish ver m mes) ∉ o
+
+theorem NoPublishOut.nil : NoPublishOut [] := fun _ _ _ _ h => by cases h
+
+theorem NoPublishOut.append {a b : List Out} (ha : NoPublishOut a) (hb : NoPublishOut b) : NoPublishOut (a ++ b) := by
+  intro n ver m mes h
+  rcases List.mem_append.mp h with h | h
+  · exact ha n ver m mes h
+  · exact hb n ver m mes h
+
+theorem stopClient_noPublish (s : Server) (i : Nat) :
+    NoPublishOut (stopClient s i).2 ∧ (stopClient s i).1.rmsgs = s.rmsgs ∧ (stopClient s i).1.topics = s.topics := by
+  unfold stopClient
+  extract_lets c
+  split
+  · exact ⟨NoPublishOut.nil, rfl, rfl⟩
+  · refine ⟨?_, rfl, rfl⟩
+    intro n ver m mes h
+    split at h
+    · cases h
+    · rw [List.mem_singleton] at h; cases h
+
+theorem disconnectClient_noPublish (s : Server) (i code : Nat) :
+    NoPublishOut (disconnectClient s i code).2 ∧ (disconnectClient s i code).1.rmsgs = s.rmsgs ∧
+    (disconnectClient s i code).1.topics = s.topics := by
+  obtain ⟨h1, h2, h3⟩ := stopClient_noPublish s i
+  unfold disconnectClient
+  extract_lets c w
+  refine ⟨NoPublishOut.append ?_ h1, h2, h3⟩
+  intro n ver m mes h
+  simp only [w] at h
+  split at h
+  · rw [List.mem_singleton] at h; cases h
+  · cases h
+
+/-- an ack (`type ≠ 3`) is not a PUBLISH -/
+theorem writeAck_noPublish (s : Server) (i t id rc : Nat) (ht : t ≠ 3) : NoPublishOut (writeAck s i t id rc) := by
+  intro n ver m mes h
+  unfold writeAck writeMsg at h
+  simp only at h
+  split at h
+  · cases h
+  · have : (t == 3) = false := by simpa using ht
+    simp only [this, Bool.false_eq_true, if_false, List.mem_singleton] at h
+    cases h
+
+theorem ackRes_noPublish (s : Server) (i t id rc : Nat) (ht : t ≠ 3) : NoPublishOut (ackRes s i t id rc).2.1 := by
+  rcases ackRes_out s i t id rc with h | h <;> rw [h]
+  · exact writeAck_noPublish s i t id rc ht
+  · exact NoPublishOut.nil
+
+/-- the publish is refused by one of the three gates at the head of `processPublish` -/
+def RefusedPublish (s : Server) (i : Nat) (topic : Str) : Prop :=
+  ((getObj s i).inline = false ∧ isValidFilter topic true = false) ∨ (getObj s i).recvQuota = 0 ∨
+  ((getObj s i).inline = false ∧ aclOk s (getObj s i).id topic true = false)
+
+/-- what a handler result `r` looks like when nothing was routed from state `s` -/
+def NotRouted (s : Server) (r : HRes) : Prop :=
+  NoPublishOut r.2.1 ∧ (∀ k t p, Out.inline k t p ∉ r.2.1) ∧ r.1.rmsgs = s.rmsgs ∧ r.1.topics = s.topics
+
+theorem NotRouted.quiet (s : Server) (e : Option Nat) : NotRouted s (s, [], e) :=
+  ⟨NoPublishOut.nil, (fun _ _ _ h => by cases h), rfl, rfl⟩
+
+theorem NotRouted.disconnect (s : Server) (i code : Nat) :
+    NotRouted s ((disconnectClient s i code).1, (disconnectClient s i code).2, some code) := by
+  obtain ⟨h1, h2, h3⟩ := disconnectClient_noPublish s i code
+  refine ⟨h1, ?_, h2, h3⟩
+  intro k t p h
+  unfold disconnectClient stopClient at h
+  simp only at h
+  rcases List.mem_append.mp h with h | h
+  · split at h
+    · rw [List.mem_singleton] at h; cases h
+    · cases h
+  · split at h
+    · cases h
+    · split at h
+      · cases h
+      · rw [List.mem_singleton] at h; cases h
+
+theorem NotRouted.ack (s : Server) (i t id rc : Nat) (ht : t ≠ 3) : NotRouted s (ackRes s i t id rc) := by
+  refine ⟨ackRes_noPublish s i t id rc ht, ?_, by rw [ackRes_fst], by rw [ackRes_fst]⟩
+  intro k tp p h
+  rcases ackRes_out s i t id rc with e | e <;> rw [e] at h
+  · unfold writeAck writeMsg at h
+    simp only at h
+    split at h
+    · cases h
+    · split at h <;> (rw [List.mem_singleton] at h; cases h)
+  · cases h
+
+/-- **a publish that fails the topic-validity, receive-quota or write-ACL gate is not routed**: the handler writes
+    no PUBLISH to any connection (only an ack with a failure code or a DISCONNECT to the publisher, or nothing),
+    makes no inline delivery, and leaves the retained store and the topic index unchanged -/
+theorem C17_refused_publish_not_routed (s : Server) (i : Nat) (q : Nat) (d r : Bool) (id : Nat) (topic payload : Str)
+    (me : Nat) (al : Option Nat) (h : RefusedPublish s i topic) :
+    NoPublishOut (processPublish s i q d r id topic payload me al).2.1 ∧
+    (∀ k t p, Out.inline k t p ∉ (processPublish s i q d r id topic payload me al).2.1) ∧
+    (processPublish s i q d r id topic payload me al).1.rmsgs = s.rmsgs ∧
+    (processPublish s i q d r id topic payload me al).1.topics = s.topics := by
+  show NotRouted s (processPublish s i q d r id topic payload me al)
+  unfold processPublish
+  extract_lets +onlyGivenNames c
+  -- the early exit shared by the topic-validity and the write-ACL gate
+  have early : ∀ code, NotRouted s
+      (if (q == 0) = true then ((s, [], none) : HRes)
+        else if (c.ver != 5) = true then
+          match disconnectClient s i code with
+          | (s, o) => (s, o, some code)
+        else ackRes s i (if (q == 2) = true then 5 else 4) id code) := by
+    intro code
+    split
+    · exact NotRouted.quiet s none
+    · split
+      · exact NotRouted.disconnect s i code
+      · refine NotRouted.ack s i _ id code ?_
+        split <;> decide
+  by_cases h1 : (!c.inline && !isValidFilter topic true) = true
+  · rw [if_pos h1]; exact early _
+  · rw [if_neg h1]
+    by_cases h2 : (c.recvQuota == 0) = true
+    · rw [if_pos h2]; exact NotRouted.disconnect s i 0x93
+    · rw [if_neg h2]
+      by_cases h3 : (!c.inline && !aclOk s c.id topic true) = true
+      · rw [if_pos h3]; exact early _
+      · exfalso
+        rcases h with ⟨a, b⟩ | a | ⟨a, b⟩
+        · apply h1; show (!(getObj s i).inline && !isValidFilter topic true) = true; rw [a, b]; rfl
+        · apply h2; show ((getObj s i).recvQuota == 0) = true; rw [a]; rfl
+        · apply h3; show (!(getObj s i).inline && !aclOk s (getObj s i).id topic true) = true; rw [a, b]; rfl
+
 end Mochi.Broker
+
+#print axioms Mochi.Broker.C17_refused_publish_not_routed
